@@ -1,0 +1,274 @@
+//go:build verif
+
+package keyproof
+
+// Verification hooks for property C17 (build tag "verif"): exported wrappers around the
+// unexported component proofs of the key-correctness proof. Add-only; compiled out
+// without the tag.
+
+import (
+	"github.com/privacybydesign/gabi/big"
+	"github.com/privacybydesign/gabi/internal/common"
+	"github.com/privacybydesign/gabi/zkproof"
+)
+
+// ---- Gennaro component proofs ------------------------------------------------------------
+
+func VerifSquareFreeBuild(N, phiN, challenge, index *big.Int) SquareFreeProof {
+	return squareFreeBuildProof(N, phiN, challenge, index)
+}
+
+// VerifSquareFreeVerify = structure check followed by the cryptographic check, the order in
+// which ValidKeyProofStructure.VerifyProof applies them.
+func VerifSquareFreeVerify(N, challenge, index *big.Int, proof SquareFreeProof) bool {
+	return squareFreeVerifyStructure(proof) && squareFreeVerifyProof(N, challenge, index, proof)
+}
+
+func VerifPrimePowerProductBuild(P, Q, challenge, index *big.Int) PrimePowerProductProof {
+	return primePowerProductBuildProof(P, Q, challenge, index)
+}
+
+func VerifPrimePowerProductVerify(N, challenge, index *big.Int, proof PrimePowerProductProof) bool {
+	return primePowerProductVerifyStructure(proof) && primePowerProductVerifyProof(N, challenge, index, proof)
+}
+
+func VerifDisjointPrimeProductBuild(P, Q, challenge, index *big.Int) DisjointPrimeProductProof {
+	return disjointPrimeProductBuildProof(P, Q, challenge, index)
+}
+
+func VerifDisjointPrimeProductVerify(N, challenge, index *big.Int, proof DisjointPrimeProductProof) bool {
+	return disjointPrimeProductVerifyStructure(proof) && disjointPrimeProductVerifyProof(N, challenge, index, proof)
+}
+
+// VerifASPPCommit is the commitment stage of the almost-safe-prime-product proof.
+type VerifASPPCommit struct {
+	Nonce       *big.Int
+	Commitments []*big.Int
+	Logs        []*big.Int
+}
+
+func VerifAlmostSafePrimeProductCommit(Pprime, Qprime *big.Int) ([]*big.Int, VerifASPPCommit) {
+	list, c := almostSafePrimeProductBuildCommitments(nil, Pprime, Qprime)
+	return list, VerifASPPCommit{c.nonce, c.commitments, c.logs}
+}
+
+func VerifAlmostSafePrimeProductBuild(Pprime, Qprime, challenge, index *big.Int, c VerifASPPCommit) AlmostSafePrimeProductProof {
+	return almostSafePrimeProductBuildProof(Pprime, Qprime, challenge, index,
+		almostSafePrimeProductCommit{nonce: c.Nonce, commitments: c.Commitments, logs: c.Logs})
+}
+
+func VerifAlmostSafePrimeProductVerify(N, challenge, index *big.Int, proof AlmostSafePrimeProductProof) bool {
+	return almostSafePrimeProductVerifyStructure(proof) && almostSafePrimeProductVerifyProof(N, challenge, index, proof)
+}
+
+func VerifAlmostSafePrimeProductExtract(proof AlmostSafePrimeProductProof) []*big.Int {
+	return almostSafePrimeProductExtractCommitments(nil, proof)
+}
+
+func VerifQuasiSafePrimeProductBuild(Pprime, Qprime, challenge *big.Int, c VerifASPPCommit) QuasiSafePrimeProductProof {
+	return quasiSafePrimeProductBuildProof(Pprime, Qprime, challenge, quasiSafePrimeProductCommit{
+		asppCommit: almostSafePrimeProductCommit{nonce: c.Nonce, commitments: c.Commitments, logs: c.Logs}})
+}
+
+func VerifQuasiSafePrimeProductVerify(N, challenge *big.Int, proof QuasiSafePrimeProductProof) bool {
+	return quasiSafePrimeProductVerifyStructure(proof) && quasiSafePrimeProductVerifyProof(N, challenge, proof)
+}
+
+// ---- the Fiat-Shamir input of the whole proof --------------------------------------------
+
+// VerifChallengeSegments recomputes, with the package's own commitmentsFromProof functions, the
+// parts of the hash input of ValidKeyProofStructure.VerifyProof, one slice per sub-proof, in the
+// order in which VerifyProof concatenates them. The harness checks that the hash of their
+// concatenation equals the challenge produced by the real BuildProof.
+func (s *ValidKeyProofStructure) VerifChallengeSegments(proof ValidKeyProof) (names []string, segs [][]*big.Int, ok bool) {
+	g, gok := zkproof.BuildGroup(proof.GroupPrime)
+	if !gok {
+		return nil, nil, false
+	}
+	proof.PProof.setName("p")
+	proof.QProof.setName("q")
+	proof.PprimeProof.setName("pprime")
+	proof.QprimeProof.setName("qprime")
+	proof.PQNRel.setName("pqnrel")
+	bases := zkproof.NewBaseMerge(&g, &proof.PProof, &proof.QProof, &proof.PprimeProof, &proof.QprimeProof)
+	proofs := zkproof.NewProofMerge(&proof.PProof, &proof.QProof, &proof.PprimeProof, &proof.QprimeProof, &proof.PQNRel)
+	add := func(name string, l []*big.Int) {
+		names = append(names, name)
+		segs = append(segs, l)
+	}
+	add("pprime", s.pprime.commitmentsFromProof(g, nil, proof.Challenge, proof.PprimeProof))
+	add("qprime", s.qprime.commitmentsFromProof(g, nil, proof.Challenge, proof.QprimeProof))
+	add("p", s.p.commitmentsFromProof(g, nil, proof.Challenge, proof.PProof))
+	add("q", s.q.commitmentsFromProof(g, nil, proof.Challenge, proof.QProof))
+	add("groupPrime", []*big.Int{proof.GroupPrime})
+	add("n", []*big.Int{s.n})
+	add("pPprimeRel", s.pPprimeRel.CommitmentsFromProof(g, nil, proof.Challenge, &bases, &proofs))
+	add("qQprimeRel", s.qQprimeRel.CommitmentsFromProof(g, nil, proof.Challenge, &bases, &proofs))
+	add("pQNRel", s.pQNRel.CommitmentsFromProof(g, nil, proof.Challenge, &bases, &proofs))
+	add("pprimeIsPrime", s.pprimeIsPrime.commitmentsFromProof(g, nil, proof.Challenge, &bases, &proofs, proof.PprimeIsPrimeProof))
+	add("qprimeIsPrime", s.qprimeIsPrime.commitmentsFromProof(g, nil, proof.Challenge, &bases, &proofs, proof.QprimeIsPrimeProof))
+	add("qspp", quasiSafePrimeProductExtractCommitments(nil, proof.QSPPproof))
+	add("basesValid", s.basesValid.commitmentsFromProof(g, nil, proof.Challenge, proof.BasesValidProof))
+	return names, segs, true
+}
+
+// VerifSegmentLengths: the number of hash-input entries each sub-proof contributes, as the
+// structure (not the proof) determines it.
+func (s *ValidKeyProofStructure) VerifSegmentLengths() []int {
+	return []int{
+		s.pprime.numCommitments(), s.qprime.numCommitments(), s.p.numCommitments(), s.q.numCommitments(),
+		1, 1,
+		s.pPprimeRel.NumCommitments(), s.qQprimeRel.NumCommitments(), s.pQNRel.NumCommitments(),
+		s.pprimeIsPrime.numCommitments(), s.qprimeIsPrime.numCommitments(),
+		almostSafePrimeProductIters,
+		s.basesValid.numCommitments(),
+	}
+}
+
+// ---- range proof as a stand-alone component ----------------------------------------------
+
+// VerifRange is a Pedersen commitment to one value together with the range proof structure
+// newPedersenRangeProofStructure(name, l1, l2) over it.
+type VerifRange struct {
+	g  zkproof.Group
+	ps pedersenStructure
+	rs rangeProofStructure
+}
+
+func VerifNewRange(groupPrime *big.Int, l1, l2 uint) (*VerifRange, bool) {
+	g, ok := zkproof.BuildGroup(groupPrime)
+	if !ok {
+		return nil, false
+	}
+	return &VerifRange{g: g, ps: newPedersenStructure("x"), rs: newPedersenRangeProofStructure("x", l1, l2)}, true
+}
+
+// Prove runs the real prover on `value` (whatever its size): Pedersen commitment, range
+// commitments, challenge = hash of (commitment, range commitments), responses.
+func (r *VerifRange) Prove(value *big.Int) (commit *big.Int, challenge *big.Int, proof RangeProof) {
+	_, pc := r.ps.commitmentsFromSecrets(r.g, nil, value)
+	bases := zkproof.NewBaseMerge(&pc, &r.g)
+	list, rc := r.rs.commitmentsFromSecrets(r.g, []*big.Int{pc.commit}, &bases, &pc)
+	challenge = verifHash(list)
+	return pc.commit, challenge, r.rs.buildProof(r.g, challenge, rc, &pc)
+}
+
+// Commitments recomputes the range-proof part of the hash input from a proof.
+func (r *VerifRange) Commitments(commit, challenge *big.Int, proof RangeProof) (list []*big.Int, structureOK bool) {
+	if !r.rs.verifyProofStructure(proof) {
+		return nil, false
+	}
+	pp := PedersenProof{Commit: commit}
+	pp.setName("x")
+	bases := zkproof.NewBaseMerge(&pp, &r.g)
+	return r.rs.commitmentsFromProof(r.g, nil, challenge, &bases, proof), true
+}
+
+func (r *VerifRange) Order() *big.Int { return r.g.Order }
+func (r *VerifRange) G() *big.Int     { return r.g.G }
+func (r *VerifRange) H() *big.Int     { return r.g.H }
+
+// ---- one exponentiation step (the OR-composition) ----------------------------------------
+
+var verifStepNames = []string{"bit", "pre", "post", "mul", "mod"}
+
+// VerifExpStep: the expStep structure over five Pedersen commitments (bit, pre, post, mul, mod).
+type VerifExpStep struct {
+	g       zkproof.Group
+	s       expStepStructure
+	commits []pedersenCommit // prover side only
+}
+
+func VerifNewExpStep(groupPrime *big.Int, bitlen uint) (*VerifExpStep, bool) {
+	g, ok := zkproof.BuildGroup(groupPrime)
+	if !ok {
+		return nil, false
+	}
+	return &VerifExpStep{g: g, s: newExpStepStructure("bit", "pre", "post", "mul", "mod", bitlen)}, true
+}
+
+// Commit makes the five Pedersen commitments (prover side) and returns the public values.
+func (e *VerifExpStep) Commit(bit, pre, post, mul, mod *big.Int) []*big.Int {
+	e.commits = nil
+	var r []*big.Int
+	for i, v := range []*big.Int{bit, pre, post, mul, mod} {
+		ps := newPedersenStructure(verifStepNames[i])
+		_, pc := ps.commitmentsFromSecrets(e.g, nil, v)
+		e.commits = append(e.commits, pc)
+		r = append(r, pc.commit)
+	}
+	return r
+}
+
+func (e *VerifExpStep) lookups() (zkproof.BaseMerge, zkproof.SecretMerge) {
+	bl := []zkproof.BaseLookup{&e.g}
+	var sl []zkproof.SecretLookup
+	for i := range e.commits {
+		bl = append(bl, &e.commits[i])
+		sl = append(sl, &e.commits[i])
+	}
+	return zkproof.NewBaseMerge(bl...), zkproof.NewSecretMerge(sl...)
+}
+
+func (e *VerifExpStep) IsTrue() bool {
+	_, secrets := e.lookups()
+	return e.s.isTrue(&secrets)
+}
+
+func (e *VerifExpStep) pub() []*big.Int {
+	var r []*big.Int
+	for i := range e.commits {
+		r = append(r, e.commits[i].commit)
+	}
+	return r
+}
+
+// Prove runs the real prover (which picks the branch from the committed bit); the challenge is
+// the hash of the five public commitments followed by the step's commitments.
+func (e *VerifExpStep) Prove() (challenge *big.Int, proof ExpStepProof) {
+	bases, secrets := e.lookups()
+	list, c := e.s.commitmentsFromSecrets(e.g, e.pub(), &bases, &secrets)
+	challenge = verifHash(list)
+	return challenge, e.s.buildProof(e.g, challenge, c, &secrets)
+}
+
+// ProveFor runs the real prover on the committed secrets but derives the challenge from the given
+// public commitments (what a prover does who presents a different commitment for one of the
+// five names than the one its secrets belong to).
+func (e *VerifExpStep) ProveFor(public []*big.Int) (challenge *big.Int, proof ExpStepProof) {
+	bases, secrets := e.lookups()
+	list, c := e.s.commitmentsFromSecrets(e.g, append([]*big.Int{}, public...), &bases, &secrets)
+	challenge = verifHash(list)
+	return challenge, e.s.buildProof(e.g, challenge, c, &secrets)
+}
+
+// FakeBoth simulates both branches with the given sub-challenges (what a prover can do when
+// neither branch holds): the commitments are those of the simulated transcripts.
+func (e *VerifExpStep) FakeBoth(achallenge, bchallenge *big.Int) (challenge *big.Int, proof ExpStepProof) {
+	bases, _ := e.lookups()
+	proof.Achallenge = achallenge
+	proof.Bchallenge = bchallenge
+	proof.Aproof = e.s.stepa.fakeProof(e.g)
+	proof.Bproof = e.s.stepb.fakeProof(e.g)
+	list := e.s.commitmentsFromProof(e.g, e.pub(), nil, &bases, proof)
+	return verifHash(list), proof
+}
+
+// Recompute = verifyProofStructure (which holds the XOR check) followed by the recomputation
+// of the hash input from the proof.
+func (e *VerifExpStep) Recompute(commits []*big.Int, challenge *big.Int, proof ExpStepProof) (list []*big.Int, structureOK bool) {
+	if !e.s.verifyProofStructure(challenge, proof) {
+		return nil, false
+	}
+	bl := []zkproof.BaseLookup{&e.g}
+	pps := make([]PedersenProof, len(commits))
+	for i := range commits {
+		pps[i] = PedersenProof{Commit: commits[i]}
+		pps[i].setName(verifStepNames[i])
+		bl = append(bl, &pps[i])
+	}
+	bases := zkproof.NewBaseMerge(bl...)
+	return e.s.commitmentsFromProof(e.g, append([]*big.Int{}, commits...), challenge, &bases, proof), true
+}
+
+func verifHash(list []*big.Int) *big.Int { return common.HashCommit(list, false) }
